@@ -355,9 +355,23 @@ ZERO = R.const(0)
 ONE = R.const(1)
 
 
+_SUPPRESS_SIDES = [0]
+
+
+class no_sides:
+    """Context manager: evaluate helper/spec expressions without recording definedness
+    side conditions (used for auxiliary symbolic probes such as kernel classification)."""
+
+    def __enter__(self):
+        _SUPPRESS_SIDES[0] += 1
+
+    def __exit__(self, *a):
+        _SUPPRESS_SIDES[0] -= 1
+
+
 def record_side(kind, term):
     """Record a definedness side condition (den != 0, log arg > 0, sqrt arg >= 0)."""
-    if CTX is not None:
+    if CTX is not None and not _SUPPRESS_SIDES[0]:
         CTX.side(kind, term)
 
 
